@@ -95,7 +95,9 @@ func (s *simplifier) simplifyWord(wps []WordPart) []WordPart {
 parts:
 	for i, wp := range wps {
 		dq, _ := wp.(*DblQuoted)
-		if dq == nil || len(dq.Parts) != 1 {
+		if dq == nil || dq.Dollar || len(dq.Parts) != 1 {
+			// Note that $"foo" cannot become $'foo',
+			// as the latter interprets escape sequences like \n.
 			break
 		}
 		lit, _ := dq.Parts[0].(*Lit)
